@@ -108,10 +108,14 @@ PROPS.update({
         "Coq proof (invariant of the FIFO traversal w.r.t. an inductive labelling) + verified certificate checker on the real automaton + differential correspondence + occurrence oracle",
         ["c01", "pg01"]),
     "C02": aut_prop("translation_validation",
-        "cert_complete (proved sound w.r.t. the abstract semantics of the automaton, for all valuations, hence all hosts and anchors) is evaluated on "
-        "every real automaton; the step from abstract acceptance to the concrete traversal is decided by correspondence (model traversal = real "
-        "traversal, exact sequences) and by the oracle (every occurrence found by an independent scan must be reported).",
-        "verified completeness certificate (AND-OR search, Coq soundness proof) on the real automaton + differential correspondence + occurrence oracle",
+        "Strings: Theorem c02_string - for every automaton that passes wf_check, cert_complete and s_keys_tight, every host, every fuel and every "
+        "Ok result of the modelled breadth-first traversal (scope-restricted bindings, visited-set pruning by (state, view)), every occurrence of every "
+        "compiled non-empty pattern is in the returned list, bound at the position of the occurrence. The three checkers are evaluated by extracted code "
+        "on the dump of every automaton the real builder produces; the modelled traversal is compared with ManyMatcher::find_matches as exact sequences. "
+        "Matrices: cert_complete is proved sound w.r.t. the abstract semantics (c02_matrix_partial) and the step to the concrete traversal is decided by "
+        "correspondence and the occurrence oracle. Port graphs: oracle only.",
+        "Coq proof of run completeness from verified certificates (trace-closure of the BFS + AND-OR completeness certificate) evaluated on the real "
+        "automaton + differential correspondence + occurrence oracle",
         ["c02", "pg02"]),
     "C03": aut_prop("translation_validation",
         "Theorem c03_accepts_iff_constraints: on an automaton passing both certificates, pattern i is accepted under a valuation iff all constraints "
